@@ -33,7 +33,7 @@ SPECS = {
         theorems="Typegen.Theorems.C05",
         trusted_base=[LEAN_TB, HARNESS_TB,
                       "modelled, not verified: syn parses the rendered source into the tree the IR printed; proc-macro2/quote unused here",
-                      "spec: T.denote (README table) and T.printSpec are the definition of 'denotes the JSON shape'; T.parseTsTy (recogniser) is trusted as the reading of TypeScript type syntax and is exercised on every case (parse o print is a run-time test, not yet a theorem)"],
+                      "spec: T.denote (README table) and T.printSpec are the definition of 'denotes the JSON shape'; T.parseTsTy (recogniser) is the reading of TypeScript type syntax used by the oracles; it is proved exact on the printer's image (C05_parse_print) and exercised on every real text"],
         assumptions=["strings are List Char; only ASCII space is trimmed (type_to_string emits no other whitespace)",
                      "zod-mode param/field sites are compared for model=implementation only; their shape is decided under C10"],
         rule="all type expressions of depth <=2 (quick) / <=3 (thorough) over {String,i32,bool,&str,(),User,Mode} x the README constructors "
@@ -43,7 +43,7 @@ SPECS = {
         exhaustive={"quick": True, "thorough": True},
         exhaustive_scope={"quick": "depth<=2 over 7 leaf classes (binary constructors capped at 12 sub-terms)", "thorough": "depth<=3 (binary constructors capped at 40 sub-terms)"},
         partial=["C05_partial: full statement minus CommaSafe/precSafe; excluded classes are known findings K05a, K05bcd; return/event sites additionally K05g (add_types_prefix)",
-                 "parse_print (parseTsTy (printSpec t) = some t) is tested per case, not proved"],
+                 "parse ∘ print = id is now proved (C05_parse_print, all canonical types); C05_text_parses_to_denotation / C05_full_chain_partial give parse(render) = denote at text level"],
     ),
     "C18": dict(
         groups=["mappings", "project"],
